@@ -3,7 +3,7 @@ package main
 var commonTrusted = []string{
 	"golang.org/x/tools v0.29.0 go/packages + go/ssa as the meaning of the source",
 	"the bhsverif executor, its intrinsics and the sqlm SQL model (validated per run by native replay of path witnesses)",
-	"z3 4.8.12",
+	"cvc5 1.0 (deciding solver); z3 4.8.12 / z3 5.1.0 used for cross-checks",
 }
 
 func checks() map[string]CheckDef {
@@ -24,6 +24,16 @@ func checks() map[string]CheckDef {
 		Bounds:  []string{"none: bits and n range over all 2^32 values; the exponent byte is case-split into its 256 values, each case decided for all 2^24 mantissa/sign values"},
 		Outside: []string{"monotonicity of work in the target is a consequence of the formula and is not re-proved", "math/big itself: Add/Mul/Neg/Lsh/Div/Quo/Cmp/Sign are modelled as exact integer arithmetic (Lsh by a constant = multiplication by 2^k, Div = Euclidean division)"},
 		Stubs:   []string{"math/big.Int = SMT Int; big.NewInt(int64) = signed value of the 64-bit vector", "work is checked relative to CompactToBig's result (HarnessWork), CompactToBig against the specification (HarnessCompact)"},
+	})
+	add(CheckDef{
+		ID: "C01", Level: "model_checking",
+		Runs: []HRun{
+			{Pkg: "internal/zzverif/c01", Func: "HarnessAddStep", Quick: [][]int64{{1, 0}, {2, 1}, {3, 0}}, Thorough: [][]int64{{1, 1}, {2, 2}, {3, 1}, {4, 0}, {5, 0}},
+				Labels: []string{"C01/inv-preserved", "C01/frame", "C01/tip-is-greatest-work", "C01/rejected-submission-changes-nothing", "C01/new-row-fields"}},
+		},
+		Bounds: []string{"one Add from an arbitrary stored table of k rows satisfying INV-H (quick k<=3, thorough k<=5), every column of every row symbolic", "0..2 forbidden hashes", "difficulty bits of the submitted header from a menu of 6 encodings (zero, negative, maximal work, mainnet/regtest minimum, high exponent); work of stored headers: any non-negative integer", "heights < 2^30"},
+		Outside: []string{"stores with more rows than the bound (the step is uniform in the row count, but that is an argument, not a solver result)", "PostgreSQL (row order and plans are SQLite's)", "real SHA-256: the submitted header's hash is an arbitrary 256-bit value, parent links are assumed acyclic", "stored headers with zero work other than genesis (see known finding C01-F2)", "reachability of the symbolic pre-state through the public API (replay inserts the pre-state rows directly)"},
+		Stubs:  []string{"BlockHasher returns an arbitrary hash", "Notification records calls", "zerolog/metrics calls have no effect", "sqlx over the sqlm model of the SQL text with row order taken from EXPLAIN QUERY PLAN of the linked SQLite"},
 	})
 	return m
 }
